@@ -39,7 +39,7 @@ def bounded_task():
         if hit3:
             r3.replay, r3.witness = hit3, hit3["input"]
         t3 = time.time()
-        hit4 = c03.include_cases() or c03.common_cases() or c03.inherited_component_metadata() or c03.metadata_block_cases() or c03.inherited_generic_doc()
+        hit4 = c03.include_cases() or c03.common_cases() or c03.inherited_component_metadata() or c03.metadata_block_cases() or c03.inherited_generic_doc() or c03.generic_source_docs()
         r4 = OR(id=f"{PROP}.Bd.parser.included_declarations", status=REFUTED if hit4 else PROVED, kind="Bd", role="bounded", target="ford.reader.FortranReader.include (real)",
                 desc="twelve declaration / documentation lines in the four marker styles, written in a module and pulled in with INCLUDE: the same variables with the same documentation; "
                      "COMMON statements of one to three blocks with one comment: every block carries it",
@@ -77,6 +77,7 @@ def build(tier, seed):
     _fx.__name__ = "analyse"
     tasks.append(a_task(PROP, _fx))
     tasks.append(Task(f"{PROP}.S.casefold.metadata_key", PROP, "ford.sourceform.FortranBase.read_metadata", lambda: __import__("contracts.casefold", fromlist=["x"]).metadata_key_obligation(PROP, lambda: __import__("bounded.c03", fromlist=["x"]).metadata_block_cases())))
+    tasks.append(Task(f"{PROP}.S.templates.docstring", PROP, "ford/templates/macros.html", lambda: __import__("contracts.tmpl_links", fromlist=["x"]).summary_obligations(PROP, lambda: __import__("bounded.c05", fromlist=["x"]).site_cases("hidden_specifics_with_long_docs"))))
     tasks.append(Task(f"{PROP}.S.converter_reset", PROP, "ford.sourceform.FortranBase.markdown", lambda: docstrings.converter_reset_obligations(PROP)))
 
     def _pb():
